@@ -788,6 +788,78 @@ func (g *gen) file() ([][]byte, bool, string) {
 	return ls, true, class
 }
 
+// bigMapFile: a file whose map "m1" holds 60-150 distinct subnets (disjoint ones, some nested in
+// others), so that its rearranger yields well over 100 range points
+func (g *gen) bigMapFile(kind string) [][]byte {
+	r := g.r
+	var ls [][]byte
+	loc := func() string { return string([]byte{lowAlpha[r.Intn(26)], lowAlpha[r.Intn(26)]}) }
+	add := func(netw, m string) { ls = append(ls, []byte(fmt.Sprintf("%%%s,%s,%s", loc(), netw, m))) }
+	n := 60 + r.Intn(91)
+	seen := map[string]bool{}
+	v4 := func(m string) {
+		x, y := r.Intn(200), r.Intn(256)
+		k := fmt.Sprintf("%d.%d", x, y)
+		if seen[m+k] {
+			return
+		}
+		seen[m+k] = true
+		add(fmt.Sprintf("10.%d.%d.0/24", x, y), m)
+		if r.Chance(1, 5) {
+			add(fmt.Sprintf("10.%d.%d.%d/28", x, y, r.Intn(16)<<4), m)
+		}
+	}
+	v6 := func(m string) {
+		x := r.Intn(60000)
+		k := fmt.Sprintf("v6-%d", x)
+		if seen[m+k] {
+			return
+		}
+		seen[m+k] = true
+		add(fmt.Sprintf("2001:db8:%x::/48", x), m)
+		if r.Chance(1, 5) {
+			add(fmt.Sprintf("2001:db8:%x:%x::/64", x, r.Intn(65536)), m)
+		}
+	}
+	for i := 0; i < n; i++ {
+		switch kind {
+		case "v4":
+			v4("m1")
+		case "v6":
+			v6("m1")
+		default:
+			if r.Chance(1, 2) {
+				v4("m1")
+			} else {
+				v6("m1")
+			}
+		}
+	}
+	if r.Chance(1, 2) {
+		add("10.0.0.0/8", "m1")
+	}
+	if r.Chance(1, 2) {
+		add("0.0.0.0/0", "m1")
+	}
+	if kind != "v4" && r.Chance(1, 2) {
+		add("::/0", "m1")
+	}
+	if kind == "multi" {
+		for i := 0; i < 5; i++ {
+			v4("m2")
+			v6("\\000\\001")
+		}
+	}
+	ls = append(ls,
+		[]byte("Zexample.com,a.ns.example.com,dns.example.com,,7200,1800,604800,120,120,,"),
+		[]byte("&example.com,1.2.3.4,a,3600"),
+		[]byte("Mexample.com,m1"),
+		[]byte("8example.com,m1"),
+		[]byte("+www.example.com,1.2.3.4,300,,ab"))
+	r.Shuffle(len(ls), func(i, j int) { ls[i], ls[j] = ls[j], ls[i] })
+	return ls
+}
+
 func canonNet(s string) string {
 	if _, n, err := net.ParseCIDR(s); err == nil {
 		return n.String()
